@@ -5,6 +5,7 @@
 (* cli.readConfig) recorded by `vdrive timing`.                             *)
 (*                                                                          *)
 (* Lines:  run{run,kind,key,got,ninst}  tok{k,tok,a,b,d,net,tag,dur,exp,pa,pb}*  end{end,last,drawn,left,timeout,err} *)
+(*         conf{run,pool,key,got}   (pools of multi-pool configurations, decoded only)                                *)
 (* Times are microseconds from one origin stamp per run (MAX = 2 000 000).  *)
 (* The design variables disc, k, nfired, ndisc, lastTok and last[1] are      *)
 (* bound to what was logged; the record predicates and DiscardDefault are    *)
@@ -54,6 +55,12 @@ TraceRun ==
     /\ nruns' = nruns + 1
     /\ UNCHANGED <<confirmed, offscript, ntoks>>
 
+\* a pool of a multi-pool configuration that was only decoded (cli.readConfig walks every pool)
+TraceConf ==
+    /\ Ev.ev = "conf"
+    /\ viol' = Collect(viol, << <<"default-not-applied", Ev.got # DiscardDefault(Ev.key)>> >>)
+    /\ UNCHANGED <<run, disc, k, nfired, ndisc, lastTok, last, maxdur, confirmed, offscript, ntoks, nruns>>
+
 Abs(x) == IF x < 0 THEN -x ELSE x
 OnScript(e) == /\ Abs((e.a - e.tok) - e.pa * TickUs) <= TolUs
                /\ Abs((e.b - e.tok) - e.pb * TickUs) <= TolUs
@@ -88,15 +95,15 @@ TraceEnd ==
           \* machinery, not verdicts (the check exits 2): engine error; a run with discard off that hit the 60 s limit
           <<"run-error", Ev.err # "" /\ ~Ev.timeout>>,
           <<"run-timeout-off", ~disc /\ Ev.timeout>>,
-          <<"token-lost", ~Ev.timeout /\ ~(nfired + ndisc = Ev.drawn /\ k = Ev.drawn /\ Ev.left = 0 /\ Ev.orphans = 0)>>,
-          <<"not-all-fired-while-off", ~disc /\ ~Ev.timeout /\ nfired # Ev.drawn>>,
+          <<"token-lost", Ev.err = "" /\ ~Ev.timeout /\ ~(nfired + ndisc = Ev.drawn /\ k = Ev.drawn /\ Ev.left = 0 /\ Ev.orphans = 0)>>,
+          <<"not-all-fired-while-off", ~disc /\ Ev.err = "" /\ ~Ev.timeout /\ nfired # Ev.drawn>>,
           <<"run-not-bounded", disc /\ (Ev.timeout \/ Ev.end > Ev.last + MAX + maxdur + SlackUs)>> >>)
     /\ UNCHANGED <<run, disc, k, nfired, ndisc, lastTok, last, maxdur, confirmed, offscript, ntoks, nruns>>
 
 TraceNext ==
     /\ l <= Len(Trace)
     /\ l' = l + 1
-    /\ TraceRun \/ TraceTok \/ TraceEnd
+    /\ TraceRun \/ TraceTok \/ TraceEnd \/ TraceConf
     /\ UNCHANGED frozen
 
 TraceSpec == TraceInit /\ [][TraceNext]_tvars
